@@ -58,6 +58,24 @@ func WithNames(t *rapid.T, s *Spec) {
 		}
 		lp = u
 	}
+	// a literal is numbered by its character code: it must not be a character
+	// whose code the specification already gives to a named token ("provided
+	// the user's explicit numbers are distinct")
+	taken := map[int]bool{}
+	for _, tm := range s.Terms {
+		if !tm.IsLit() && tm.Code != 0 {
+			taken[tm.Code] = true
+		}
+	}
+	{
+		var free []string
+		for _, x := range lp {
+			if !taken[int(x[0])] { // yaccgo numbers a literal by its first byte
+				free = append(free, x)
+			}
+		}
+		lp = free
+	}
 	li, ti := 0, 0
 	for i := range s.Terms {
 		if s.Terms[i].IsLit() {
@@ -101,6 +119,13 @@ func WithDecls(t *rapid.T, s *Spec) {
 	s.SetLang("go")
 	pick := func() string { return s.Fields[rapid.IntRange(0, nf-1).Draw(t, "field")] }
 	used := map[int]bool{}
+	// character codes of the literals in use: an explicit number must differ
+	litCode := map[int]bool{}
+	for _, tm := range s.Terms {
+		if tm.IsLit() {
+			litCode[int(tm.Lit[0])] = true // first byte, as yaccgo numbers it
+		}
+	}
 	for i := range s.Terms {
 		tm := &s.Terms[i]
 		if tm.Decl != "token" {
@@ -124,7 +149,7 @@ func WithDecls(t *rapid.T, s *Spec) {
 				default:
 					code = rapid.IntRange(401, 70000).Draw(t, "codehigh")
 				}
-				if !used[code] {
+				if !used[code] && !litCode[code] {
 					break
 				}
 			}
